@@ -25,7 +25,7 @@ CHECKS["C13"] = dict(
     engine="rex",
     category="other",
     text="Unbounded regular-language verification by SMT: for each of the ~6,800 installed extractors, 'every text the pattern matches contains (after the tokenizer's own text transformation) a filter word registered for it' is one emptiness query decided by z3's regex solver for texts of any length; plus structural checks that a tokenizer built on a sub-list only ever selects members of that sub-list.",
-    note="Trusted: z3's sequence/regex theory, the re._parser AST -> z3 translation (validated each run against the real regex engine on concrete members/non-members), pyahocorasick's contract (iter reports every added word that occurs). Alphabet: code points up to U+2FFFF, extended to all of Unicode by a recorded class-signature argument. Custom extractors outside the installed list are outside; sub-lists are covered structurally for 5 sampled shapes, not symbolically.",
+    note="Trusted: z3's sequence/regex theory, the re._parser AST -> z3 translation (validated each run against the real regex engine on concrete members/non-members), pyahocorasick's contract (iter reports every added word that occurs). Alphabet: code points up to U+2FFFF, extended to all of Unicode by a recorded class-signature argument. Custom extractors outside the installed list are outside the inclusion queries; arbitrary sub-lists are covered structurally for 5 sampled shapes and symbolically (real __post_init__/get_extractors on <=2/3 abstract extractors over the filter words wa, wb, wawb with the automaton's iter/iter_long contract).",
     technique=REX,
     design_ref="DESIGN.md section 3, C13",
 )
@@ -34,7 +34,7 @@ CHECKS["C09"] = dict(
     engine="symex",
     category="other",
     text="Bounded symbolic verification: every feasible path of the real annotate_citations / SpanUpdater / maybe_balance_style_tags / wrap_html_tags source over symbolic spans, diff scripts with unbounded amounts, all three tag modes and both diff engines; on each path 'output minus the inserted sentinels == target text' is a z3 validity query on slices of the symbolic text; counter-models are realised as concrete plain/source texts (tags placed by a model-guided search in skip/wrap mode) and replayed.",
-    note="Bounds: <=2 annotations, <=3 diff blocks (quick) / <=4 (thorough); skip mode: one style-tag kind present in the text (quick). Stubs (contracts): diff engines return any alternating valid script; is_balanced_html arbitrary boolean; regex finditer/sub on the text by span contracts. Trusted: interpreter (self-tested against CPython each run), z3.",
+    note="Bounds: <=2 annotations, <=3 diff blocks (quick) / <=4 (thorough); skip mode: one style-tag kind present in the text (quick). The inserted strings are sentinels containing backslash-digit, backslash-letter, space and regex metacharacters. Stubs (contracts): diff engines return any alternating valid script; is_balanced_html arbitrary boolean; regex finditer on the text by span contract; re.sub applies the real replacement (template parsed by CPython's parse_template, or the interpreted replacement function) around <=1/2 matches. Trusted: interpreter (self-tested against CPython each run), z3.",
     technique=SYMEX,
     design_ref="DESIGN.md section 3, C09/C10",
 )
@@ -42,15 +42,15 @@ CHECKS["C10"] = dict(
     engine="symex",
     category="other",
     text="Same engine and harness as C09 with the C10 clauses: without a source each non-empty span not overlapped by an earlier one is enclosed exactly once as before+text[s:e]+after, annotations appear in span order; with equal/insert-only scripts (forced alignment) the annotation encloses exactly source[s+ins(s) : e+ins(e-1)]; SpanUpdater.update is monotone and within the source for every script and both bisect sides.",
-    note="Bounds: <=3 annotations without source, <=2 with; <=4 diff blocks; unchecked mode (skip may omit and wrap splits annotations by design). The forced-alignment clause trusts the diff engines to return the minimal script for texts that differ by foreign insertions (their contract); a change of the arguments passed to the C diff call is outside the interpreter's view.",
+    note="Bounds: <=3 annotations without source, <=2 with; <=4 diff blocks; unchecked mode (skip may omit and wrap splits annotations by design). The forced-alignment clause needs the minimal script, which only fast_diff_match_patch in its exact configuration (timelimit=0, checklines=False, cleanup='No') guarantees: the stub checks the arguments of the call (clause diff_engine_called_in_its_exact_minimal_configuration); for the difflib engine the clause fails on the pinned tree (known finding C10-difflib-not-minimal, replayed and printed as KNOWN-FINDING). The offset-translation harness covers both engines' step generators.",
     technique=SYMEX,
     design_ref="DESIGN.md section 3, C09/C10",
 )
 
-_RES_NOTE = "Bounds: lists of 3 (quick) / 4 (thorough) citations over 9 abstract kinds; volumes, reporters, guessed editions, pages, party names, antecedents, pin cites and token indexes symbolic (integers unbounded). Stubs: hash_sha256 injective; strip_punct identity (names without punctuation); re.match on the pin cite by contract. Trusted: interpreter (self-tested on extracted documents each run), z3, the reference model in vf/harness/c06.py."
+_RES_NOTE = "Bounds: lists of 3 (quick) / 4 (thorough) citations over 9 abstract kinds (quick C07/C08 add the 4-citation slices over {full case, short} and {full case, supra}); volumes, reporters, guessed editions, pages, party names, antecedents, pin cites and token indexes symbolic (integers unbounded). Stubs: hash_sha256 injective; strip_punct identity (names without punctuation); re.match on the pin cite by contract. Trusted: interpreter (self-tested on extracted documents each run), z3, the reference model in vf/harness/c06.py."
 CHECKS["C06"] = dict(
     engine="symex", category="other",
-    text="Bounded symbolic verification of the real resolve_citations and citation/Resource hash+eq source: on every feasible path the mapping's values are disjoint ordered sub-sequences of the input led by a full citation, every full citation is under exactly one resource, unknown citations never appear, and two full citations share a resource iff the specification equality (volume, page, normalised reporter, no placeholder) holds - a z3 validity query per path.",
+    text="Bounded symbolic verification of the real resolve_citations and citation/Resource hash+eq source: on every feasible path the mapping's values are disjoint ordered sub-sequences of the input led by a full citation, every full citation is under exactly one resource, unknown citations never appear, and two full citations share a resource iff the specification equality (volume, page, normalised reporter, no placeholder page - for journal citations too) holds - a z3 validity query per path; a history phase corrects a resolved citation's page through its public groups and resolves again (the grouping must follow).",
     note=_RES_NOTE, technique=SYMEX, design_ref="DESIGN.md section 3, C06-C08",
 )
 CHECKS["C07"] = dict(
@@ -73,14 +73,14 @@ CHECKS["C16"] = dict(
 CHECKS["C18"] = dict(
     engine="symex", category="other",
     text="Bounded symbolic verification of the real get_year, guess_edition, Edition.includes_year and disambiguate_reporters source with symbolic years, edition date ranges (or None) and clock: the guess is a candidate, is made iff there is one candidate or a year singles one out, the numeric year is in [1600, bound] and equals the text, disambiguation keeps exactly the non-resource or guessed citations in order; the year-assignment sites and the remove_ambiguous tail are folded in from the extraction and filter harnesses.",
-    note="Bounds: <=2 (quick) / <=3 (thorough) candidate editions, <=3/4 citations. Stubs: datetime.now().year and helpers._highest_valid_year symbolic. Outside: inherited years of parallel citations.",
+    note="Bounds: <=2 (quick) / <=3 (thorough) candidate editions, <=3/4 citations. Stubs: datetime.now().year and helpers._highest_valid_year symbolic. Parallel citations: is_parallel_citation keeps 'numeric year == value of the textual year, in range' (pre-state invariant assumed for both citations). Outside: which edition a year inherited from a parallel citation selects.",
     technique=SYMEX, design_ref="DESIGN.md section 3, C18",
 )
 
 CHECKS["C03"] = dict(
     engine="symex", category="other",
-    text="Bounded symbolic verification of the real filter_citations/overlapping_citations source and of get_citations' own tail (dispatch, reference collection, filter) on <=3 (quick) / <=4 (thorough) citations with symbolic spans and full spans: strictly increasing span order, pairwise disjoint spans, every non-reference kept, nothing invented, filter idempotent - z3 validity queries per path under a stated input envelope.",
-    note="The envelope is part of the claim and listed in the evidence: non-reference spans disjoint in token order (C12 + the C02 span lemma), short/id full spans cross no other special token, references start after a full case citation and never coincide character-for-character with another citation, full-span starts of full case citations monotone (argued, not solver-checked).",
+    text="Bounded symbolic verification of the real filter_citations/overlapping_citations source and of get_citations' own tail (dispatch, reference collection, filter) on <=3 (quick) / <=4 (thorough) citations with symbolic spans and full spans: strictly increasing span order, pairwise disjoint spans, every non-reference kept, nothing invented, filter idempotent - z3 validity queries per path under a stated input envelope; quick adds the slice of 4-citation lists that start with a full case citation and end with a reference.",
+    note="The envelope is part of the claim and listed in the evidence: non-reference spans disjoint in token order (C12 + the C02 span lemma), short/id full spans cross no other special token, references start after a full case citation and never coincide character-for-character with another citation, full-span starts of full case citations monotone (lemma C03lemma:mono, discharged in the same run by symbolic execution of add_defendant/add_pre_citation on two citations sharing a window).",
     technique=SYMEX, design_ref="DESIGN.md section 3, C03",
 )
 
@@ -119,16 +119,16 @@ CHECKS["C14"] = dict(
 
 CHECKS["C15"] = dict(
     engine="symex", category="other",
-    text="PARTIAL (hash-randomisation clause). With `set` iteration order modelled as a symbolic permutation (and iteration over any hash set met by the interpreted code permuted likewise), the real get_extractors -> extract_tokens -> tokenize, CitationToken.merge -> token_is_from_nominative_reporter / ResourceCitation.__hash__, and the reference-pattern construction are executed twice per path (identity order vs arbitrary order) and their results compared; a dependence is confirmed by running the real get_citations in fresh processes with different PYTHONHASHSEED values.",
-    note="NOT decided: thread schedules and cross-call history (no concurrency model of CPython in this technique). merge()'s set()-based de-duplication is order dependent in principle; an exhaustive sweep of the installed reporters-db shows no merge group where that can change a result (recorded as latent, outside the claim). Candidate-edition tuples are compared as sets.",
+    text="PARTIAL (hash-randomisation clause + frame condition). With `set` iteration order modelled as a symbolic permutation (and iteration over any hash set met by the interpreted code permuted likewise), the real get_extractors -> extract_tokens -> tokenize, CitationToken.merge -> token_is_from_nominative_reporter / ResourceCitation.__hash__, and the reference-pattern construction are executed twice per path (identity order vs arbitrary order) and their results compared; a dependence is confirmed by running the real get_citations in fresh processes with different PYTHONHASHSEED values. The tokenizer object is built by the interpreted __post_init__ and a tokenize call must leave its attributes and their containers unchanged (frame condition); a counter-model is confirmed by call sequences in one process against fresh processes, then by 8 threads sharing the default tokenizer.",
+    note="NOT decided: thread schedules (no concurrency model of CPython in this technique; shared state written during a call is detected by the frame condition, an actual race only if the thread replay exposes it) and cross-call history beyond the frame condition. merge()'s set()-based de-duplication is order dependent in principle; an exhaustive sweep of the installed reporters-db shows no merge group where that can change a result (recorded as latent, outside the claim). Candidate-edition tuples are compared as sets.",
     technique="symbolic execution of the Python source with set iteration order as a symbolic permutation (two runs per path, self-composition); subprocess replay with different hash seeds",
     design_ref="DESIGN.md section 3, C15",
 )
 
 CHECKS["C19"] = dict(
     engine="symex", category="other",
-    text="PARTIAL. Decided on the real source: (a) get_citations' own tail (dispatch, reference collection, parallel detection, filter) executed with and without reference citations on the same prepared citations gives the same non-reference citations, order and parallel comparisons (self-composition per path); (b) every reference produced by extract_pincited_reference_citations starts at or after its citation's span end, has 0 <= full start <= start <= end <= full end <= len(text) and its token text is the slice at its span; (c) find_reference_citations_from_markup with both real SpanUpdaters built from a symbolic diff script and its inverse gives references with valid plain-text offsets that do not start before their citation.",
-    note="NOT decided: the html cleaning step (lxml) and so the whole-pipeline equality with get_citations(clean_text(markup)); concrete markup documents serve as the replay corpus for solver counter-models.",
+    text="PARTIAL. Decided on the real source: (a) get_citations' own tail (dispatch, reference collection, parallel detection, filter) executed with and without reference citations on the same prepared citations gives the same non-reference citations, order and parallel comparisons (self-composition per path); (b) every reference produced by extract_pincited_reference_citations starts at or after its citation's span end, has 0 <= full start <= start <= end <= full end <= len(text) and its token text is the slice at its span; (c) find_reference_citations_from_markup with both real SpanUpdaters built from a symbolic diff script and its inverse gives references with valid plain-text offsets that do not start before their citation; (d) the markup search pattern and the name-pincite pattern the code builds for a citation (captured from the interpreted functions) only match strings that contain a party name, case-sensitively - regular-language inclusion by z3, no length bound.",
+    note="NOT decided: the html cleaning step (lxml) and so the whole-pipeline equality with get_citations(clean_text(markup)); the name-validity table (DISALLOWED_NAMES) is taken as given; concrete markup documents serve as the replay corpus for solver counter-models.",
     technique=SYMEX, design_ref="DESIGN.md section 3, C19",
 )
 
@@ -141,8 +141,8 @@ CHECKS["C01"] = dict(
 )
 CHECKS["C05"] = dict(
     engine="symex", category="other",
-    text="PARTIAL (resolution half). Bounded symbolic verification of the real resolver on scenario lists (distinct cases with non-overlapping party names; short/supra references written to a ghost intended antecedent; id. with no/numeric/non-numeric pin cite): exactly one resource per case, every reference that is unambiguous by the property's criteria is grouped with its intended case, an id. with an impossible pin cite or after an unresolved citation is left out - z3 validity queries per path, counter-models replayed as real citation objects.",
-    note="NOT decided: that extraction produces those citation objects from running text (needs the regex engines end to end; its pieces are C01/C02/C17). Bounds: lists of 3 (quick) / 4 (thorough). Stubs as in C06.",
+    text="PARTIAL (resolution half). Bounded symbolic verification of the real resolver on scenario lists (cases with pairwise non-overlapping party names, each cited in full once or repeatedly; short/supra references written to a ghost intended antecedent; id. with no/numeric/non-numeric pin cite): exactly one resource per case, every reference that is unambiguous by the property's criteria is grouped with its intended case, an id. with an impossible pin cite or after an unresolved citation is left out - z3 validity queries per path, counter-models replayed as real citation objects.",
+    note="NOT decided: that extraction produces those citation objects from running text (needs the regex engines end to end; its pieces are C01/C02/C17). Bounds: lists of 4 (quick) / 5 (thorough) citations; a case may be cited in full repeatedly. Stubs as in C06.",
     technique=SYMEX, design_ref="DESIGN.md section 3, C05",
 )
 
@@ -191,7 +191,7 @@ def main():
             "guard": "EYECITE_VERIF",
             "enable": "no hooks are needed: stubs live in the interpreter; the variable is never read by /repo",
             "baseline_off_cmd": "cd /repo && /venv/bin/python -m pytest -ra -q -p no:cacheprovider --timeout=900 --continue-on-collection-errors",
-            "source_commits": [f.split()[0] for f in fixes],
+            "source_commits": [],
             "add_only": True,
         },
         "engines": [
@@ -199,7 +199,7 @@ def main():
             {"name": "rex", "path": "vf/rex.py", "serves_properties": sorted(p for p, c in CHECKS.items() if "rex" in c["engine"]), "kind_free_text": "python re AST -> z3 regular expressions over the full Unicode alphabet; inclusion/equivalence/emptiness queries"},
         ],
         "checks": checks,
-        "notes": "All commits listed under hooks.source_commits are unguarded 'fix:' commits (genuine defects, see known_findings.json); there are no instrumentation hooks. Exit codes: 0 holds within bounds, 1 reproduced violation, 2 inconclusive/harness error.",
+        "notes": "There are no instrumentation hooks in /repo (hooks.source_commits is empty; the guard variable is never read): contract stubs live in the interpreter. The commits on top of the pinned tree are unguarded 'fix:' commits repairing genuine defects (see known_findings.json 'fixed:' lines and DESIGN.md section 4): " + ", ".join(f.split()[0] for f in fixes) + ". Exit codes: 0 holds within bounds, 1 reproduced violation, 2 inconclusive/harness error.",
         "not_applicable": na,
     }
     with open(os.path.join(ROOT, "MANIFEST.json"), "w") as f:
